@@ -111,12 +111,28 @@ type world struct {
 
 var cur atomic.Pointer[world]
 
-// listeners registered on any bus so far (counted in every mode)
-var listenAdded atomic.Int64
+// listeners registered so far, per bus (counted in every mode), and the bus the main goroutine last registered on
+var (
+	lmu         sync.Mutex
+	listenCount = map[any]int{}
+	mainGoid    int64
+	mainBus     any
+)
+
+func listensOn(bus any) int {
+	lmu.Lock()
+	defer lmu.Unlock()
+	return listenCount[bus]
+}
 
 func hook(point string, obj any, args ...any) {
 	if point == "listen.added" {
-		listenAdded.Add(1)
+		lmu.Lock()
+		listenCount[obj]++
+		if goid() == mainGoid {
+			mainBus = obj
+		}
+		lmu.Unlock()
 	}
 	w := cur.Load()
 	if w == nil || !w.forced {
@@ -529,6 +545,9 @@ func leaked(base int, nudge func()) int {
 func msg(v int) proto.Message { return &testproto.TestAllTypes{DefaultInt32: int32(v)} }
 
 func runStorm(c caseT) obsT {
+	lmu.Lock()
+	listenCount = map[any]int{} // (per run: the buses of earlier runs are not kept alive)
+	lmu.Unlock()
 	o := obsT{N: c.N, Mode: "storm", Res: c.Res, Sched: []stepT{}, Panics: []string{}, Expect: map[string]int{}, Journal: []jrnT{}, Got: [][][]int{}, ClosedSeen: []bool{}, AfterClose: []int{}, SendOK: [][]bool{}}
 	cur.Store(&world{})
 	rnd := hx.Rand(int64(c.N)*104729 + int64(c.Iter))
@@ -700,7 +719,16 @@ func runStorm(c caseT) obsT {
 	if col != nil && o.WriterStall == 0 {
 		_, _ = col.Update(ids[2], msg(7), resource.WithCreateIfAbsent())
 		ctx, cancel := context.WithCancel(context.Background())
-		listensBefore := listenAdded.Load()
+		// which bus is the collection's: a subscription made (and ended) from this goroutine tells
+		pctx, pcancel := context.WithCancel(context.Background())
+		pch := col.Pull(pctx, resource.WithUpdatesOnly(true))
+		lmu.Lock()
+		colBus := mainBus
+		lmu.Unlock()
+		pcancel()
+		for range pch {
+		}
+		listensBefore := listensOn(colBus)
 		ch := col.PullID(ctx, ids[2], resource.WithBackpressure(true), resource.WithUpdatesOnly(c.Iter%2 == 1))
 		got := make(chan struct{})
 		first := make(chan struct{})
@@ -714,17 +742,25 @@ func runStorm(c caseT) obsT {
 			close(got)
 		}()
 		// The subscription registers from a goroutine of its own: it is established once its listener is on the
-		// collection's bus (hook "listen.added"; nobody else subscribes at this point of the storm).  A fixed
+		// collection's own bus (hook "listen.added", counted per bus: stragglers of earlier runs register elsewhere).  A fixed
 		// pause is not that: on a busy machine the removal could precede the registration and never be seen.
 		// Nothing is written in between, so that an updates-only subscriber has not been sent the item.
 		established := false
 		for deadline := time.Now().Add(5 * time.Second); !established && time.Now().Before(deadline); {
-			if established = listenAdded.Load() > listensBefore; !established {
+			if established = listensOn(colBus) > listensBefore; !established {
 				time.Sleep(50 * time.Microsecond)
 			}
 		}
 		_ = first
-		_, _ = col.Delete(ids[2], resource.WithAllowMissing(true))
+		// (the removal may meet the subscription while it is still handing out its seed: the consumer keeps
+		//  receiving, so it gets through -- a tree on which it does not must not hang the harness)
+		removed := make(chan struct{})
+		go func() { defer close(removed); _, _ = col.Delete(ids[2], resource.WithAllowMissing(true)) }()
+		select {
+		case <-removed:
+		case <-time.After(6 * time.Second):
+			o.WriterStall++
+		}
 		select {
 		case <-got:
 			// the subscription has ended by itself; its context is still live (nobody has to cancel a
@@ -1088,6 +1124,7 @@ func runStorm(c caseT) obsT {
 }
 
 func main() {
+	mainGoid = goid()
 	minibus.VerifHook = hook
 	resource.VerifHook = func(string, any, ...any) {}
 	cases := hx.ReadCases[caseT](hx.Arg("-cases", "cases.ndjson"))
